@@ -336,6 +336,9 @@ func (w *workerEnv) serve(id int, method, path string, headers [][2]string, body
 	for _, h := range headers {
 		req.Header.Set(h[0], h[1])
 	}
+	// like net/http: the request context ends when the handler returns
+	ctx, cancel := context.WithCancel(req.Context())
+	req = req.WithContext(ctx)
 	done := make(chan serveOut, 1)
 	go func() {
 		var so serveOut
@@ -354,6 +357,7 @@ func (w *workerEnv) serve(id int, method, path string, headers [][2]string, body
 			so.status = rec.Code
 			done <- so
 		}()
+		defer cancel()
 		w.ing.router.ServeHTTP(rec, req)
 	}()
 	select {
